@@ -24,9 +24,51 @@ def showDest : Dest → String
   | .failure => "failure"
   | .unmodelledHost raw => s!"unmodelled:{encStr raw}"
 
+def showResp : Resp → String
+  | .redirect .idp => "redirect:idp"
+  | .redirect .authHome => "redirect:home"
+  | .redirect .creatingPage => "redirect:creating"
+  | .redirect .next => "redirect:next"
+  | .badRequest => "400"
+  | .unauthorized => "401"
+  | .page => "page"
+  | .serverError => "500"
+
+def acctOf : String → Option Account
+  | "none" => some .none | "creating" => some .creating | "active" => some .active | "inactive" => some .inactive
+  | "deleting" => some .deleting | "deleted" => some .deleted | _ => none
+
+def callerOf : String → Option Caller
+  | "login" => some .login | "signup" => some .signup | _ => none
+
+def flagOf : String → Option Bool
+  | "1" => some true | "0" => some false | _ => none
+
+/-- `flow <domain> <basePath | N> <next | N> entry` | `… cb <hasFlow> <caller> <account> <signupOk>` | `… cr <pending> <account>` -/
+def handleFlow (d bp nx : String) (rest : List String) : String :=
+  match decStr d, (if bp == "N" then some none else (decStr bp).map some), (if nx == "N" then some none else (decStr nx).map some) with
+  | some d, some bp, some nx =>
+    let cfg : DeployCfg := { domain := d, basePath := bp }
+    -- `request.query.get('next', deploy_config.external_url('auth', '/user'))` / `session.pop('next', …)`
+    let next := nx.getD (externalUrl cfg ['a', 'u', 't', 'h'] ['/', 'u', 's', 'e', 'r'])
+    let ok := validate cfg next == .accept
+    match rest with
+    | ["entry"] => showResp (entryResp ok)
+    | ["cb", hf, c, a, so] =>
+      match flagOf hf, callerOf c, acctOf a, flagOf so with
+      | some hf, some c, some a, some so => showResp (callbackResp hf c ok a so)
+      | _, _, _, _ => "bad-op"
+    | ["cr", pe, a] =>
+      match flagOf pe, acctOf a with
+      | some pe, some a => showResp (creatingResp pe ok a)
+      | _, _ => "bad-op"
+    | _ => "bad-op"
+  | _, _, _ => "bad-op"
+
 /-- line: `<domain> <basePath | N> <url>`; answer: `py=<netloc> verdict=<…> dest=<…>` (base host = host of the auth service) -/
 def handle (line : String) : String :=
   match words line with
+  | "flow" :: d :: bp :: nx :: rest => handleFlow d bp nx rest
   | [d, bp, u] =>
     match decStr d, (if bp == "N" then some none else (decStr bp).map some), decStr u with
     | some d, some bp, some u =>
